@@ -262,19 +262,26 @@ fn shape_verify(shape: &str, root: &std::path::Path) -> &'static str {
 
 /// child side: exit status 0 = returned Ok, 1 = returned Err, 3 = panicked (caught)
 pub fn shape_child(shape: &str) -> ! {
-    let tmp = tempfile::Builder::new().prefix("itv-shape-").tempdir().unwrap();
-    let root = tmp.path().to_path_buf();
+    // (the scratch directory belongs to the parent, which removes it however this process ends; a
+    // replay by hand gets its own)
+    let own = if std::env::var("ITV_SHAPE_DIR").is_err() { Some(tempfile::Builder::new().prefix("itv-shape-").tempdir().unwrap()) } else { None };
+    let root = match &own {
+        Some(t) => t.path().to_path_buf(),
+        None => std::path::PathBuf::from(std::env::var("ITV_SHAPE_DIR").unwrap()),
+    };
     let sh = shape.to_string();
     let res = guarded(std::panic::AssertUnwindSafe(move || shape_verify(&sh, &root)));
-    drop(tmp);
+    drop(own);
     std::process::exit(match res { Ok("ok") => 0, Ok(_) => 1, Err(()) => 3 })
 }
 
 fn shape_case(sink: &mut Sink, shape: &str) {
     use std::io::Read;
     let exe = std::env::current_exe().unwrap();
+    let scratch = tempfile::Builder::new().prefix("itv-shape-").tempdir().unwrap();
     let mut child = std::process::Command::new(exe)
         .args(["C14", "--replay", &format!("shape:{}", shape)])
+        .env("ITV_SHAPE_DIR", scratch.path())
         .stdout(std::process::Stdio::null())
         .stderr(std::process::Stdio::piped())
         .spawn()
@@ -309,6 +316,7 @@ fn shape_case(sink: &mut Sink, shape: &str) {
             }
         },
     };
+    drop(scratch);
     sink.stat(&format!("delegation-shape/{}/{}", shape, how.split(' ').next().unwrap()));
     sink.oracle(how == "ok" || how == "err", &format!("in_toto_verify {} on a link directory whose delegation structure is unusual", how), &replay);
     // a genuine chain verifies, a cycle cannot
